@@ -11,7 +11,7 @@ use crate::runner::{Ctx, Part, Tier, Verdict};
 const NAMES: [&str; 4] = ["a", "b", "c", "d"];
 
 /// template sources: (text, compiles)
-const SOURCES: [(&str, bool); 14] = [
+const SOURCES: [(&str, bool); 20] = [
     ("A1{% include 'b' %}", true),
     ("B{{ x|f1 }}", true),
     ("{% extends 'c' %}{% block t %}D{{ g1 }}{% endblock %}", true),
@@ -26,6 +26,13 @@ const SOURCES: [(&str, bool); 14] = [
     ("{% if %}", false),
     ("{{ unclosed", false),
     ("{% for q in [1] %}{% macro m() %}{{ q }}{% endmacro %}{{ m() }}{% endfor %}{% include 'a' ignore missing %}", true),
+    // renders that fail while captures are open and hold text, and renders that use captures
+    ("{% set c %}captured-secret {{ 1 // 0 }}{% endset %}", true),
+    ("{% set c %}ok{% endset %}[{{ c }}]{% filter upper %}f{% endfilter %}", true),
+    ("{% filter upper %}in-filter {% set d %}inner {{ nosuchfn() }}{% endset %}{% endfilter %}", true),
+    ("{% macro m() %}macro-text {{ x.nope.nope }}{% endmacro %}{{ m() }}", true),
+    ("{% macro w() %}<{{ caller() }}>{% endmacro %}{% call w() %}call-text {% include 'zz' %}{% endcall %}", true),
+    ("{% macro w() %}<{{ caller() }}>{% endmacro %}{% call w() %}fine{% endcall %}{{ w|string|length }}", true),
 ];
 
 #[derive(Clone, Debug, Serialize, Deserialize, PartialEq)]
